@@ -41,6 +41,37 @@ def err_type(dest_ty):
     return None
 
 
+def result_fates(prog, path_re):
+    """(body, call, error type, bad fates, good fates, awaited?) for every Result<_, E> produced on the given path"""
+    out = []
+    for b in prog.bodies.values():
+        if not path_re.search(b.name):
+            continue
+        if b.rec.get('derived') or b.rec.get('exp'):
+            continue
+        for c in b.calls:
+            dt = c.t.get('dest_ty', '')
+            et = err_type(dt)
+            awaited = False
+            if not et and dt.startswith('std::task::Poll<std::result::Result<'):
+                et = err_type(dt[len('std::task::Poll<'):-1])
+                awaited = True
+            if not et:
+                continue
+            d = c.dest
+            if d['p']:
+                continue
+            fs = fate(b, d['l'], classify)
+            if awaited:
+                bad = sorted(f for f in fs if f.startswith('swallowed'))
+                good = fs - set(bad) - {'matched'}
+            else:
+                bad = sorted(f for f in fs if f == 'dropped' or f.startswith('swallowed'))
+                good = fs - set(bad)
+            out.append((b, c, et, bad, good, awaited))
+    return out
+
+
 def classify(t, argidx):
     names = [n for n in (t.get('res'), t.get('fn')) if n]
     for n in names:
@@ -72,47 +103,33 @@ def run(ctx):
                  'io::Error, csv::Error, db::Error} produced in executor::/storage::/db::/array:: is dropped unread or '
                  'discarded with ok()/is_ok()/is_err()/unwrap_or*()')
     n_results = 0
-    for b in prog.bodies.values():
-        if not STATEMENT_PATH.search(b.name):
-            continue
-        if b.rec.get('derived') or b.rec.get('exp'):
-            continue
+    for b, c, et, bad, good, awaited in result_fates(prog, STATEMENT_PATH):
+        n_results += 1
         ctx.functions_analysed.add(b.name)
-        for c in b.calls:
-            et = err_type(c.t.get('dest_ty', ''))
-            if not et:
-                continue
-            # poll results are Poll<Result<..>>: handled because dest_ty starts with Poll -> not matched here;
-            n_results += 1
-            d = c.dest
-            if d['p']:
-                continue
-            fs = fate(b, d['l'], classify)
-            bad = sorted(f for f in fs if f == 'dropped' or f.startswith('swallowed'))
-            good = fs - set(bad)
-            exempt = EXEMPT.get(b.root)
-            if bad and not good and not exempt:
+        exempt = EXEMPT.get(b.root)
+        if bad and not good and not exempt:
+            if awaited:
+                ctx.ob(R1, f'{b.root}·await·{"/".join(bad)}', False,
+                       f'the awaited result of `{c.name}` in {b.name} is {", ".join(bad)}', [site(b, c.bb)])
+            else:
                 ctx.ob(R1, f'{b.root}·{short(c.name)}·{"/".join(bad)}', False,
                        f'the {et} result of `{c.name}` in {b.name} is {", ".join(bad)}: the error never reaches the caller',
                        [site(b, c.bb)])
-            else:
-                ctx.evaluations += 1
-                if bad and exempt:
-                    ctx.note(f'{R1}: exempt {b.root}: {exempt}')
-        # awaited results: Poll<Result<..>> moved out of Ready
-        for c in b.calls:
-            dt = c.t.get('dest_ty', '')
-            if dt.startswith('std::task::Poll<std::result::Result<') and err_type(dt[len('std::task::Poll<'):-1]):
-                n_results += 1
-                fs = fate(b, c.dest['l'], classify) if not c.dest['p'] else {'stored'}
-                bad = sorted(f for f in fs if f.startswith('swallowed'))
-                # 'dropped'/'matched' are normal for a Poll (Pending arm); only explicit swallowing counts,
-                # the inner Result is re-examined when it is moved out: follow the Ready payload
-                if bad and not (fs - set(bad) - {'matched'}) and not EXEMPT.get(b.root):
-                    ctx.ob(R1, f'{b.root}·await·{"/".join(bad)}', False,
-                           f'the awaited result of `{c.name}` in {b.name} is {", ".join(bad)}', [site(b, c.bb)])
-                else:
-                    ctx.evaluations += 1
+        else:
+            ctx.evaluations += 1
+            if bad and exempt:
+                ctx.note(f'{R1}: exempt {b.root}: {exempt}')
+    # self-test on the positive examples (tests/fixture, compiled through the same driver)
+    try:
+        import mir
+        fx = mir.load_fixture()
+        flagged = {b.root for b, c, et, bad, good, aw in result_fates(fx, re.compile(r'^executor::')) if bad and not good}
+        want = {'executor::dropped', 'executor::swallowed', 'executor::defaulted'}
+        clean = {'executor::propagated', 'executor::matched', 'executor::tested'}
+        ctx.ob(R1, 'self-test·fixture', flagged >= want and not (flagged & clean),
+               f'positive examples flagged: {sorted(flagged)}; expected {sorted(want)} and none of {sorted(clean)}')
+    except SystemExit as e:
+        ctx.ob(R1, 'self-test·fixture', False, f'fixture crate could not be analysed: {e}')
     ctx.nontrivial.add((R1, f'results:{n_results}'))
     ctx.floor(R1, n_results, 300, 'Result-producing call sites examined')
     ctx.extra['results_examined'] = n_results
